@@ -9,6 +9,7 @@ import (
 	"encoding/hex"
 	"fmt"
 	"io"
+	"reflect"
 
 	snes "github.com/alttpo/snes"
 	"github.com/alttpo/snes/asm"
@@ -65,6 +66,15 @@ func digest(parts ...interface{}) string {
 	return hex.EncodeToString(h.Sum(nil)[:8])
 }
 
+func safeStep(step func() (int, bool)) (n int, st bool) {
+	defer func() {
+		if recover() != nil {
+			n = -1
+		}
+	}()
+	return step()
+}
+
 func safely(f func() string) (out string) {
 	defer func() {
 		if x := recover(); x != nil {
@@ -74,18 +84,29 @@ func safely(f func() string) (out string) {
 	return f()
 }
 
-// program: a little loop that stores, pushes, branches and traces; differs per variant
-func program(v int) []byte {
-	return []byte{
-		0xC2, 0x30, // REP #$30
-		0xA9, byte(0x11 + v), 0x22, // LDA #$22xx
-		0x85, byte(0x10 + 2*v), // STA dp
+// program: decimal arithmetic in a width that depends on the variant, then a little loop that
+// stores, pushes, branches and traces; differs per variant. Returns the code and the offsets of two
+// instruction boundaries (used as RunUntil targets).
+func program(v int) (code []byte, mid, end int) {
+	code = []byte{0xC2, 0x30, 0xF8} // REP #$30; SED
+	if v%2 == 1 {
+		code = append(code, 0xE2, 0x20, 0xA9, byte(0x19+v), 0x69, 0x01, 0xE9, 0x02) // SEP #$20; LDA #; ADC #; SBC # (8-bit BCD)
+	} else {
+		code = append(code, 0xA9, 0x99, byte(0x12+v), 0x69, 0x01, 0x00, 0xE9, 0x02, 0x01) // 16-bit BCD
+	}
+	code = append(code, 0xD8, 0xC2, 0x20) // CLD; REP #$20
+	mid = len(code)
+	code = append(code,
+		0xA9, byte(0x11+v), 0x22, // LDA #$22xx
+		0x85, byte(0x10+2*v), // STA dp
 		0x48,       // PHA
 		0xE8,       // INX
 		0x1A,       // INC A
 		0xD0, 0xF8, // BNE back to STA
-		0xEA, 0xDB, // NOP, STP
-	}
+	)
+	end = len(code)
+	code = append(code, 0xEA, 0xDB) // NOP, STP
+	return
 }
 
 // ---- emulator.System
@@ -103,7 +124,8 @@ func newSys(v, n int) *sysT {
 		panic(err)
 	}
 	start := uint32(0x7E2000 + 0x100*v)
-	for i, b := range program(v) {
+	code, _, _ := program(v)
+	for i, b := range code {
 		t.s.Bus.EaWrite(start+uint32(i), b)
 	}
 	t.s.CPU.SP = 0x01FF - uint16(0x20*v)
@@ -116,8 +138,9 @@ func (t *sysT) NumOps() int  { return t.n }
 func (t *sysT) Do(i int) string {
 	return safely(func() string {
 		start := uint32(0x7E2000 + 0x100*t.v)
-		targets := []uint32{start + 7, start + 12, 0x123456}
-		budgets := []uint64{20, 60, 25}
+		_, mid, end := program(t.v)
+		targets := []uint32{start + uint32(mid), start + uint32(end), 0x123456}
+		budgets := []uint64{30, 60, 25}
 		t.log.Reset()
 		ok := t.s.RunUntil(targets[i%3], budgets[i%3])
 		dump := make([]byte, 0x40)
@@ -147,7 +170,8 @@ func newCPU(v, n int) *cpuT {
 	if err := t.b.Attach(memory.NewRAM(t.ram, 0), "ram", 0, 0xFFFF); err != nil {
 		panic(err)
 	}
-	copy(t.ram[0x8000+0x100*v:], program(v))
+	code, _, _ := program(v)
+	copy(t.ram[0x8000+0x100*v:], code)
 	t.c, _ = cpu65c816.New(t.b)
 	t.c.SP = 0x01FF
 	t.c.PC = uint16(0x8000 + 0x100*v)
@@ -159,7 +183,7 @@ func (t *cpuT) Do(i int) string {
 	return safely(func() string {
 		var tr []byte
 		cy := 0
-		for k := 0; k < 4+i; k++ {
+		for k := 0; k < 7+i; k++ {
 			tr = t.c.DisassembleCurrentPC(tr)
 			n, _ := t.c.Step()
 			cy += n
@@ -169,6 +193,21 @@ func (t *cpuT) Do(i int) string {
 		if i == 1 {
 			t.c.TriggerIRQ()
 		}
+		// every opcode once, disassembled and stepped, in a width/decimal mode that depends on op and variant
+		saved := *t.c
+		h := sha1.New()
+		for op := 0; op < 256; op++ {
+			base := 0x9000 + 8*op
+			t.ram[base], t.ram[base+1], t.ram[base+2], t.ram[base+3] = byte(op), byte(0x10+t.v), 0x20, 0x00
+			t.c.PC, t.c.RK, t.c.RDBR, t.c.SP, t.c.RD = uint16(base), 0, 0, 0x01F0, 0
+			t.c.SetFlags(byte((i+t.v)&3)<<4 | byte(op&1)<<3)
+			line := t.c.DisassembleCurrentPC(nil)
+			n, st := safeStep(t.c.Step)
+			fmt.Fprintf(h, "%s%d%v%04x%04x;", line, n, st, t.c.PC, t.c.RA)
+			t.c.Stopped = false
+		}
+		*t.c = saved
+		tr = append(tr, h.Sum(nil)...)
 		dump := make([]byte, 0x20)
 		n := t.b.EaDump(uint32(0x8000+0x100*t.v)+1, uint32(0x8000+0x100*t.v)+0x1A, dump)
 		return digest(string(tr), cy, f, n, dump)
@@ -193,7 +232,8 @@ func newAlt(v, n int) *altT {
 	t.c.Init()
 	t.c.Bus.AttachReader(0, 0xFFFF, func(a uint32) uint8 { return t.ram[a&0xFFFF] })
 	t.c.Bus.AttachWriter(0, 0xFFFF, func(a uint32, b uint8) { t.ram[a&0xFFFF] = b })
-	copy(t.ram[0x8000+0x100*v:], program(v))
+	code, _, _ := program(v)
+	copy(t.ram[0x8000+0x100*v:], code)
 	t.c.SP = 0x01FF
 	t.c.PC = uint16(0x8000 + 0x100*v)
 	return t
@@ -204,11 +244,25 @@ func (t *altT) Do(i int) string {
 	return safely(func() string {
 		var tr bytes.Buffer
 		cy := 0
-		for k := 0; k < 4+i; k++ {
+		for k := 0; k < 7+i; k++ {
 			t.c.DisassembleCurrentPC(&tr)
 			tr.WriteString(t.c.Disassemble(t.c.PC))
 			n, _ := t.c.Step()
 			cy += n
+		}
+		for op := 0; op < 256; op++ {
+			base := 0x9000 + 8*op
+			t.ram[base], t.ram[base+1], t.ram[base+2], t.ram[base+3] = byte(op), byte(0x10+t.v), 0x20, 0x00
+			pc, k, dbr, sp, d, fl, ra, rx, ry, ral, rah, rxl, ryl, e := t.c.PC, t.c.RK, t.c.RDBR, t.c.SP, t.c.RD, t.c.Flags(), t.c.RA, t.c.RX, t.c.RY, t.c.RAl, t.c.RAh, t.c.RXl, t.c.RYl, t.c.E
+			t.c.PC, t.c.RK, t.c.RDBR, t.c.SP, t.c.RD = uint16(base), 0, 0, 0x01F0, 0
+			t.c.SetFlags(byte((i+t.v)&3)<<4 | byte(op&1)<<3)
+			t.c.DisassembleCurrentPC(&tr)
+			n, st := safeStep(t.c.Step)
+			fmt.Fprintf(&tr, "%d%v%04x%04x;", n, st, t.c.PC, t.c.RA)
+			t.c.Stopped = false
+			t.c.E = e
+			t.c.SetFlags(fl)
+			t.c.PC, t.c.RK, t.c.RDBR, t.c.SP, t.c.RD, t.c.RA, t.c.RX, t.c.RY, t.c.RAl, t.c.RAh, t.c.RXl, t.c.RYl = pc, k, dbr, sp, d, ra, rx, ry, ral, rah, rxl, ryl
 		}
 		return digest(tr.String(), cy)
 	})
@@ -260,7 +314,44 @@ func (t *asmT) Do(i int) string {
 			e.LDA_long(uint32(0x7EF340 + t.v))
 			e.JMP_indirect(uint16(0xFFEA + t.v))
 			e.WDM(uint8(t.v))
-			return digest(e.Len(), e.PC(), e.IsM16bit(), e.IsX16bit(), e.GetBase(), e.Cap(), t.listings())
+			// every emitting method once on a scratch emitter (whatever its width guard says)
+			sc := asm.NewEmitter(make([]byte, 0x400), true)
+			sc.SetBase(uint32(0x7E0000 + 0x100*t.v))
+			rv := reflect.ValueOf(sc)
+			for mi := 0; mi < rv.NumMethod(); mi++ {
+				name := rv.Type().Method(mi).Name
+				for _, p := range []asm.Flags{0x00, 0x30} {
+					sc.AssumeREP(0x30)
+					sc.AssumeSEP(p)
+					func() {
+						defer func() { _ = recover() }()
+						switch f := rv.Method(mi).Interface().(type) {
+						case func():
+							f()
+						case func(uint8):
+							f(uint8(0x40 + t.v))
+						case func(int8):
+							f(int8(t.v))
+						case func(uint16):
+							f(uint16(0x1230 + t.v))
+						case func(uint32):
+							f(uint32(0x7E1230 + t.v))
+						case func(uint8, uint8):
+							f(uint8(t.v), 0x7F)
+						case func(uint8, uint8, uint8):
+							f(uint8(t.v), 0x80, 0x7E)
+						case func(string):
+							if name != "Label" {
+								f("scratch")
+							}
+						}
+					}()
+				}
+			}
+			var sb bytes.Buffer
+			_ = sc.WriteTextTo(&sb)
+			_ = sc.WriteHexTo(&sb)
+			return digest(e.Len(), e.PC(), e.IsM16bit(), e.IsX16bit(), e.GetBase(), e.Cap(), t.listings(), sc.Bytes(), sb.String())
 		case 1:
 			c := e.Clone(make([]byte, 0x80))
 			c.JSL(uint32(0x7E0000 + t.v))
